@@ -1,0 +1,32 @@
+//go:build verif
+
+package p2p
+
+import (
+	pubsub "github.com/libp2p/go-libp2p-pubsub"
+)
+
+// VerifGossipvalNewMessaging returns a P2PMessaging with empty handler and validator
+// registries and without a libp2p host (P2P == nil). AddMessageHandler, AddValidator and
+// Handle work as in production; Start and SendMessage must not be called.
+func VerifGossipvalNewMessaging() *P2PMessaging {
+	return &P2PMessaging{
+		gossipTopicNames:  make(map[string]struct{}),
+		handlerRegistry:   make(HandlerRegistry),
+		validatorRegistry: make(ValidatorRegistry),
+	}
+}
+
+// VerifGossipvalCombinedValidator returns the validator that P2PNode.Run registers with
+// libp2p for the topic (validatorRegistry.GetCombinedValidator(topic)).
+func (m *P2PMessaging) VerifGossipvalCombinedValidator(topic string) pubsub.ValidatorEx {
+	return m.validatorRegistry.GetCombinedValidator(topic)
+}
+
+// VerifGossipvalTopics returns the gossip topics the node would subscribe to.
+func (m *P2PMessaging) VerifGossipvalTopics() []string { return m.topics() }
+
+// VerifGossipvalValidatorCount returns how many validators are registered for the topic.
+func (m *P2PMessaging) VerifGossipvalValidatorCount(topic string) int {
+	return len(m.validatorRegistry[topic])
+}
